@@ -44,6 +44,7 @@ type Spec struct {
 	Assumptions []string  `json:"assumptions"`
 	Outside     []string  `json:"outside_the_claim"`
 	Stubs       []string  `json:"stubs"`
+	DirectedMode string                `json:"directed_mode"` // "" (token scheduler: sync/sync.atomic only) or "chan" (channel-aware)
 	Directed    bool                   `json:"directed"` // schedule-dependent findings can be replayed with sync/sync.atomic instrumented
 	Cfg         map[string]interface{} `json:"cfg"` // defaults for every run of this spec/part
 	Parts       []Spec    `json:"parts"` // a property spanning several packages: one part per package
@@ -422,7 +423,11 @@ func writeAndRunReplay(dir string, spec *Spec, entry string, f *Finding, params 
 		}
 	}
 	if spec.Directed && len(f.Sched) > 0 {
-		ok, out := runReplay(dir+"-directed", spec, entry, f, params, true, 1)
+		dcount := 1
+		if spec.DirectedMode == "chan" {
+			dcount = 5 // a select with several ready cases is still Go's choice
+		}
+		ok, out := runReplay(dir+"-directed", spec, entry, f, params, true, dcount)
 		if ok {
 			return true, out, dir + "-directed"
 		}
@@ -474,6 +479,7 @@ func runReplay(dir string, spec *Spec, entry string, f *Finding, params map[stri
 		"outcome": f.Outcome.String(), "label": f.Label, "msg": f.Msg, "pos": f.Pos, "entry": entry}
 	if directed {
 		rec["schedule"] = f.Sched
+		rec["partners"] = f.Partners
 	} else {
 		rec["engine_schedule"] = f.Sched
 	}
@@ -502,7 +508,11 @@ func runReplay(dir string, spec *Spec, entry string, f *Finding, params map[stri
 	wr(inPkg("zz_verif_hooks_test.go"), "rt_hooks.go", strings.ReplaceAll(readRT(hooks), "package PKG", pk))
 	for _, h := range spec.Harness {
 		hb, _ := os.ReadFile(filepath.Join(verifDir, h))
-		if directed {
+		if directed && spec.DirectedMode == "chan" {
+			if nb, err := instrumentChan(hb, h); err == nil {
+				hb = nb
+			}
+		} else if directed {
 			if nb, _, err := rewriteSyncImports(hb, h); err == nil {
 				hb = nb
 			}
@@ -511,7 +521,12 @@ func runReplay(dir string, spec *Spec, entry string, f *Finding, params map[stri
 	}
 	wr(inPkg("zz_verif_drv_test.go"), "driver.go", fmt.Sprintf("%s\n\nimport \"testing\"\n\nfunc TestVerifReplay(t *testing.T) { vrtMain(t, %s) }\n", pk, entry))
 	if directed {
-		wr(filepath.Join(repoDir, "internal", "vrt", "vrt.go"), "vrt.go", readRT("vrt.go.tmpl"))
+		schedTmpl := "vrt_token.go.tmpl"
+		if spec.DirectedMode == "chan" {
+			schedTmpl = "vrt_chan.go.tmpl"
+		}
+		wr(filepath.Join(repoDir, "internal", "vrt", "vrt.go"), "vrt.go", readRT(schedTmpl))
+		wr(filepath.Join(repoDir, "internal", "vrt", "vrt_common.go"), "vrt_common.go", readRT("vrt_common.go.tmpl"))
 		ents, _ := os.ReadDir(pkgDir)
 		for _, e := range ents {
 			n := e.Name()
@@ -520,6 +535,12 @@ func runReplay(dir string, spec *Spec, entry string, f *Finding, params map[stri
 			}
 			src, err := os.ReadFile(filepath.Join(pkgDir, n))
 			if err != nil {
+				continue
+			}
+			if spec.DirectedMode == "chan" {
+				if nb, err := instrumentChan(src, n); err == nil && !bytes.Equal(nb, src) {
+					wr(inPkg(n), "instrumented_"+n, string(nb))
+				}
 				continue
 			}
 			nb, changed, err := rewriteSyncImports(src, n)
